@@ -51,15 +51,24 @@ theorem matches_abs {ic ir : Bool} {p : Str} (h : Absolute ic ir p) (v : Str) :
   simp only [valueMatches, Bool.false_eq_true, if_false, if_true, globMatch]
   exact tokMatch_lits p v h3
 
-theorem matchesCfg_plain {c : Cfg} {p v : Str} (h : ¬ (c.indexed = true ∧ c.ci = true)) :
+theorem matchesCfg_plain {c : Cfg} {p v : Str} (h : c.ci = false) :
     MatchesCfg c p v ↔ Matches c.isCase c.isRe p v := by
   unfold MatchesCfg
   constructor
-  · rintro (⟨⟨_, h1, h2⟩, _⟩ | ⟨_, hm⟩)
-    · exact absurd ⟨h1, h2⟩ h
+  · rintro (⟨⟨_, h2⟩, _⟩ | ⟨_, hm⟩)
+    · rw [h] at h2; cases h2
     · exact hm
   · intro hm
-    exact Or.inr ⟨fun ⟨_, h1, h2⟩ => h ⟨h1, h2⟩, hm⟩
+    refine Or.inr ⟨?_, hm⟩
+    rintro ⟨_, h2⟩
+    rw [h] at h2; cases h2
+
+theorem second_of_noci {c : Cfg} (h : c.ci = false) : c.second = c := by
+  cases c; simp [Cfg.second] at *; exact h
+
+theorem matchesCfg_second (c : Cfg) (p v : Str) :
+    MatchesCfg c.second p v ↔ Matches c.isCase c.isRe p v :=
+  matchesCfg_plain (c := c.second) rfl
 
 theorem cfg_abs_iff (c : Cfg) (p : Str) : c.abs p = true ↔ Absolute c.isCase c.isRe p := isAbsolute_iff _ _ _
 theorem cfg_vm_iff (c : Cfg) (p v : Str) : c.vm p v = true ↔ Matches c.isCase c.isRe p v := valueMatches_iff _ _ _ _
@@ -74,9 +83,9 @@ theorem key_eq_iff_val {e : Cand} {p : Str} (hk : e.key.isSome = true ∨ p ≠ 
       exact hk
   | some k => simp [Cand.val, hkey, eq_comm]
 
-theorem foundHit_iff {c : Cfg} {p : Str} {e : Cand} (hci : ¬ (c.indexed = true ∧ c.ci = true))
-    (hk : e.key.isSome = true ∨ p ≠ []) : foundHit c p e = true ↔ MatchesCfg c p e.val := by
-  rw [matchesCfg_plain hci]
+theorem foundHit_iff {c : Cfg} {p : Str} {e : Cand}
+    (hk : e.key.isSome = true ∨ p ≠ []) : foundHit c p e = true ↔ MatchesCfg c.second p e.val := by
+  rw [matchesCfg_second]
   unfold foundHit
   by_cases ha : c.abs p = true
   · simp only [ha, if_true, beq_iff_eq]
@@ -95,8 +104,8 @@ theorem any_eq_spec {c : Cfg} {hit : Str → Cand → Bool} {pats : List Str} {e
   · rintro ⟨p, hp, hh⟩; exact ⟨p, hp, (h p hp).mpr hh⟩
 
 theorem stage_spec_found_aux (c : Cfg) (cands : List Cand) (pats : List Str)
-    (hci : ¬ (c.indexed = true ∧ c.ci = true)) (hk : AllKeyed cands ∨ [] ∉ pats) :
-    stageFound c cands pats ~ filterSpec c cands pats := by
+    (hk : AllKeyed cands ∨ [] ∉ pats) :
+    stageFound c cands pats ~ filterSpec c.second cands pats := by
   rw [stageFound_eq]
   refine (stageGen_perm _ _ _).trans (Perm.of_eq ?_)
   unfold filterSpec
@@ -104,7 +113,7 @@ theorem stage_spec_found_aux (c : Cfg) (cands : List Cand) (pats : List Str)
   intro e he
   apply any_eq_spec
   intro p hp
-  apply foundHit_iff hci
+  apply foundHit_iff
   cases hk with
   | inl h => exact Or.inl (h e he)
   | inr h => exact Or.inr (fun hp0 => h (hp0 ▸ hp))
@@ -215,9 +224,9 @@ theorem stageMapGo_perm (c : Cfg) (pats : List Str) (m : NameMap) (hm : MapOk m)
   refine h2.trans (Perm.of_eq ?_)
   exact nmFlat_filter hm (fun v => pats.any (fun p => valHit c p v))
 
-theorem valHit_iff {c : Cfg} {p v : Str} (hci : ¬ (c.indexed = true ∧ c.ci = true)) :
-    valHit c p v = true ↔ MatchesCfg c p v := by
-  rw [matchesCfg_plain hci]
+theorem valHit_iff {c : Cfg} {p v : Str} :
+    valHit c p v = true ↔ MatchesCfg c.second p v := by
+  rw [matchesCfg_second]
   unfold valHit
   by_cases ha : c.abs p = true
   · simp only [ha, if_true, beq_iff_eq]
@@ -227,16 +236,15 @@ theorem valHit_iff {c : Cfg} {p v : Str} (hci : ¬ (c.indexed = true ∧ c.ci = 
     exact cfg_vm_iff c p v
 
 /-- namemap stage on the fresh elements -/
-theorem stageMap_perm (c : Cfg) (found others : List Cand) (pats : List Str)
-    (hci : ¬ (c.indexed = true ∧ c.ci = true)) :
-    stageMap c found others pats ~ filterSpec c (freshOnes found others) pats := by
+theorem stageMap_perm (c : Cfg) (found others : List Cand) (pats : List Str) :
+    stageMap c found others pats ~ filterSpec c.second (freshOnes found others) pats := by
   unfold stageMap
   refine (stageMapGo_perm c pats _ (buildMap_ok _)).trans ?_
   refine (Perm.filter _ (buildMap_flat _)).trans (Perm.of_eq ?_)
   unfold filterSpec
   apply List.filter_congr
   intro e _
-  exact any_eq_spec (hit := fun p e => valHit c p e.val) (fun p _ => valHit_iff hci)
+  exact any_eq_spec (hit := fun p e => valHit c p e.val) (fun p _ => valHit_iff)
 
 
 /-! ## freshOnes / dedup -/
@@ -500,44 +508,107 @@ theorem stageDirect_found (c : Cfg) (keyed : Bool) (pats : List Str) (groups : L
       intro found
       simp only [stageDirect, ih, directGroup_found, List.append_assoc]
 
-theorem directGroup_subset (c : Cfg) (keyed : Bool) (g : List Cand) (pats : List Str)
-    (hu : c.indexed = true → UniqueKeys c g) (found : List Cand) :
-    ∀ e ∈ (directGroup c keyed g found pats).1, e ∈ g := by
-  intro e he
-  have := (directGroup_perm c keyed g pats hu found).mem_iff.mp he
-  exact (List.mem_filter.mp this).1
+theorem freshOnes_append (a : List Cand) : ∀ (F b : List Cand),
+    freshOnes F (a ++ b) = freshOnes F a ++ freshOnes (F ++ a) b := by
+  induction a with
+  | nil => intro F b; simp [freshOnes]
+  | cons e r ih =>
+      intro F b
+      simp only [List.cons_append, freshOnes]
+      by_cases h : F.contains e = true
+      · have he : e ∈ F := by simpa using h
+        simp only [h, if_true, ih]
+        congr 1
+        apply freshOnes_congr
+        intro x
+        simp only [List.mem_append, List.mem_cons]
+        constructor
+        · rintro (h1 | h1)
+          · exact Or.inl h1
+          · exact Or.inr (Or.inr h1)
+        · rintro (h1 | h1 | h1)
+          · exact Or.inl h1
+          · exact Or.inl (h1 ▸ he)
+          · exact Or.inr h1
+      · simp only [h, Bool.false_eq_true, if_false, ih, List.cons_append, List.append_assoc,
+          List.nil_append]
+
+/-- on a duplicate-free list `freshOnes` is just "not found yet" -/
+theorem freshOnes_nodup_eq_filter (l : List Cand) : ∀ F : List Cand, l.Nodup →
+    freshOnes F l = l.filter (fun e => !F.contains e) := by
+  induction l with
+  | nil => intros; rfl
+  | cons e r ih =>
+      intro F hn
+      have hn' := List.nodup_cons.mp hn
+      simp only [freshOnes, List.filter_cons]
+      by_cases h : F.contains e = true
+      · simp only [h, if_true, Bool.not_true, Bool.false_eq_true, if_false]
+        exact ih F hn'.2
+      · simp only [h, Bool.false_eq_true, if_false, Bool.not_false, if_true]
+        congr 1
+        rw [ih (F ++ [e]) hn'.2]
+        apply List.filter_congr
+        intro x hx
+        have : x ≠ e := fun hxe => hn'.1 (hxe ▸ hx)
+        simp [this]
 
 theorem stageDirect_perm (c : Cfg) (keyed : Bool) (pats : List Str) (groups : List (List Cand))
-    (hn : groups.flatten.Nodup) (hu : c.indexed = true → ∀ g ∈ groups, UniqueKeys c g) : ∀ found,
+    (hn : ∀ g ∈ groups, g.Nodup) (hu : c.indexed = true → ∀ g ∈ groups, UniqueKeys c g) : ∀ found,
     (stageDirect c keyed pats groups found).1 ~
-      groups.flatten.filter (fun e => !found.contains e && pats.any (fun p => dHit c keyed p e)) := by
+      (freshOnes found groups.flatten).filter (fun e => pats.any (fun p => dHit c keyed p e)) := by
   induction groups with
-  | nil => intro found; simp [stageDirect]
+  | nil => intro found; simp [stageDirect, freshOnes]
   | cons g gs ih =>
       intro found
       have hug : c.indexed = true → UniqueKeys c g := fun hi => hu hi g (by simp)
       have hugs : c.indexed = true → ∀ g ∈ gs, UniqueKeys c g :=
         fun hi g' hg' => hu hi g' (List.mem_cons_of_mem _ hg')
-      simp only [List.flatten_cons] at hn
-      have hn2 : gs.flatten.Nodup := (List.nodup_append.mp hn).2.1
-      have hdisj : ∀ a ∈ g, ∀ b ∈ gs.flatten, a ≠ b := (List.nodup_append.mp hn).2.2
-      simp only [stageDirect, List.flatten_cons, List.filter_append, directGroup_found]
-      refine Perm.append (directGroup_perm c keyed g pats hug found) ?_
-      refine (ih hn2 hugs _).trans (Perm.of_eq ?_)
-      apply List.filter_congr
-      intro e he
-      have hnot : e ∉ (directGroup c keyed g found pats).1 := by
-        intro hin
-        exact hdisj e (directGroup_subset c keyed g pats hug found e hin) e he rfl
-      by_cases hf : e ∈ found <;> simp [hf, hnot]
+      have hng : g.Nodup := hn g (by simp)
+      have hngs : ∀ g ∈ gs, g.Nodup := fun g' hg' => hn g' (List.mem_cons_of_mem _ hg')
+      let H : Cand → Bool := fun e => pats.any (fun p => dHit c keyed p e)
+      have hA := directGroup_perm c keyed g pats hug found
+      simp only [stageDirect, List.flatten_cons, directGroup_found, freshOnes_append, List.filter_append]
+      refine Perm.append ?_ ?_
+      · refine hA.trans (Perm.of_eq ?_)
+        rw [freshOnes_nodup_eq_filter g found hng, List.filter_filter]
+        apply List.filter_congr
+        intro e _
+        exact Bool.and_comm _ _
+      · refine (ih hngs hugs _).trans (Perm.of_eq ?_)
+        -- the children of g that were not returned do not match: adding them to `found` changes nothing
+        let Y := (directGroup c keyed g found pats).1
+        let X := g.filter (fun e => !H e)
+        have hX : ∀ x ∈ X, H x = false := by
+          intro x hx; simpa using (List.mem_filter.mp hx).2
+        have hmem : ∀ e, e ∈ (found ++ Y) ++ X ↔ e ∈ found ++ g := by
+          intro e
+          simp only [List.mem_append]
+          rw [hA.mem_iff]
+          simp only [List.mem_filter, X]
+          constructor
+          · rintro ((h | ⟨h, _⟩) | ⟨h, _⟩)
+            · exact Or.inl h
+            · exact Or.inr h
+            · exact Or.inr h
+          · rintro (h | h)
+            · exact Or.inl (Or.inl h)
+            · by_cases hf : e ∈ found
+              · exact Or.inl (Or.inl hf)
+              · by_cases hs : H e = true
+                · exact Or.inl (Or.inr ⟨h, by simpa [hf, H] using hs⟩)
+                · exact Or.inr ⟨h, by simpa using hs⟩
+        show (freshOnes (found ++ Y) gs.flatten).filter H = (freshOnes (found ++ g) gs.flatten).filter H
+        rw [freshOnes_filter_ext H gs.flatten (found ++ Y) X hX, freshOnes_congr gs.flatten _ _ hmem]
 
-
-theorem lower_eq_comm {a b : Str} : lower a = lower b ↔ lower b = lower a := eq_comm
+theorem direct_ci (c : Cfg) : c.direct.ci = (c.indexed && c.ci) := rfl
 
 theorem dHit_iff {c : Cfg} {keyed : Bool} {p : Str} {e : Cand}
     (hk : e.key.isSome = true ∨ (keyed = false ∧ p ≠ [])) :
-    dHit c keyed p e = true ↔ MatchesCfg c p e.val := by
+    dHit c keyed p e = true ↔ MatchesCfg c.direct p e.val := by
   unfold dHit
+  have hcase : c.direct.isCase = c.isCase := rfl
+  have hre : c.direct.isRe = c.isRe := rfl
   by_cases ha : c.abs p = true
   · have hA := (cfg_abs_iff c p).mp ha
     simp only [ha, if_true]
@@ -553,29 +624,30 @@ theorem dHit_iff {c : Cfg} {keyed : Bool} {p : Str} {e : Cand}
         rintro (⟨_, hl⟩ | ⟨_, hm⟩)
         · simp [Cand.val, hkey, lower] at hl
           exact hp hl
-        · rw [matches_abs hA] at hm
+        · rw [hcase, hre, matches_abs hA] at hm
           simp [Cand.val, hkey] at hm
           exact hp hm
     | some k =>
         have hv : e.val = k := val_of_key hkey
         rw [hv]
-        by_cases hic : (c.indexed = true ∧ c.ci = true)
-        · simp only [hic.1, hic.2, Bool.and_self, if_true, beq_iff_eq]
+        by_cases hic : (c.indexed && c.ci) = true
+        · simp only [hic, if_true, beq_iff_eq]
           unfold MatchesCfg
+          rw [hcase, hre, direct_ci, hic]
           constructor
-          · intro h; exact Or.inl ⟨⟨hA, hic.1, hic.2⟩, h⟩
+          · intro h; exact Or.inl ⟨⟨hA, rfl⟩, h⟩
           · rintro (⟨_, h⟩ | ⟨hn, _⟩)
             · exact h
-            · exact absurd ⟨hA, hic.1, hic.2⟩ hn
-        · have : (c.indexed && c.ci) = false := by
-            cases h1 : c.indexed <;> cases h2 : c.ci <;> simp_all
-          simp only [this, Bool.false_eq_true, if_false, beq_iff_eq]
-          rw [matchesCfg_plain hic, matches_abs hA]
+            · exact absurd ⟨hA, rfl⟩ hn
+        · have hf : (c.indexed && c.ci) = false := by simpa using hic
+          simp only [hf, Bool.false_eq_true, if_false, beq_iff_eq]
+          rw [matchesCfg_plain (c := c.direct) (by rw [direct_ci]; exact hf), hcase, hre, matches_abs hA]
           exact eq_comm
   · simp only [ha, Bool.false_eq_true, if_false]
     have hnA : ¬ Absolute c.isCase c.isRe p := fun h => ha ((cfg_abs_iff c p).mpr h)
-    have hm : MatchesCfg c p e.val ↔ Matches c.isCase c.isRe p e.val := by
+    have hm : MatchesCfg c.direct p e.val ↔ Matches c.isCase c.isRe p e.val := by
       unfold MatchesCfg
+      rw [hcase, hre]
       constructor
       · rintro (⟨⟨h, _⟩, _⟩ | ⟨_, hm⟩)
         · exact absurd h hnA
@@ -587,22 +659,65 @@ theorem dHit_iff {c : Cfg} {keyed : Bool} {p : Str} {e : Cand}
     | inl h => simp [h]
     | inr h => simp [h.1]
 
+/-- a child lacking the key is never returned by get_instances' direct stage -/
+theorem dHit_keyless {c : Cfg} {p : Str} {e : Cand} (h : e.key.isSome = false) :
+    dHit c true p e = false := by
+  unfold dHit absEq scanHit
+  cases hk : e.key with
+  | none => by_cases ha : c.abs p = true <;> simp [ha]
+  | some k => simp [hk] at h
+
+theorem filter_keyedPart (keyed : Bool) (l : List Cand) (f : Cand → Bool)
+    (hf : keyed = true → ∀ e ∈ l, e.key.isSome = false → f e = false) :
+    l.filter f = (keyedPart keyed l).filter f := by
+  unfold keyedPart
+  cases keyed with
+  | false => simp
+  | true =>
+      simp only [if_true, List.filter_filter]
+      apply List.filter_congr
+      intro e he
+      cases hk : e.key.isSome with
+      | true => simp
+      | false => simp [hf rfl e he hk]
+
 /-- direct stage from an empty found set -/
 theorem stageDirect_spec (c : Cfg) (keyed : Bool) (groups : List (List Cand)) (pats : List Str)
     (h : HypDirect c keyed groups pats) :
-    (stageDirect c keyed pats groups []).1 ~ filterSpec c groups.flatten pats := by
+    (stageDirect c keyed pats groups []).1 ~
+      filterSpec c.direct (keyedPart keyed (freshOnes [] groups.flatten)) pats := by
   obtain ⟨hn, hu, hk⟩ := h
   refine (stageDirect_perm c keyed pats groups hn hu []).trans (Perm.of_eq ?_)
-  unfold filterSpec
-  apply List.filter_congr
-  intro e he
-  simp only [List.contains_nil, Bool.not_false, Bool.true_and]
-  apply any_eq_spec
-  intro p hp
-  apply dHit_iff
-  cases hk with
-  | inl h => exact Or.inl (h e he)
-  | inr h => exact Or.inr ⟨h.1, fun hp0 => h.2 (hp0 ▸ hp)⟩
+  rw [filter_keyedPart keyed]
+  · unfold filterSpec
+    apply List.filter_congr
+    intro e he
+    apply any_eq_spec
+    intro p hp
+    apply dHit_iff
+    have heG : e ∈ groups.flatten := by
+      have : e ∈ freshOnes [] groups.flatten := by
+        unfold keyedPart at he
+        cases keyed with
+        | false => simpa using he
+        | true => simp only [if_true] at he; exact (List.mem_filter.mp he).1
+      exact ((mem_freshOnes _ _ _).mp this).1
+    rcases hk with hk | hk | hk
+    · subst hk
+      simp only [keyedPart, if_true] at he
+      exact Or.inl (List.mem_filter.mp he).2
+    · exact Or.inl (hk e heG)
+    · cases hkd : keyed with
+      | true =>
+          subst hkd
+          simp only [keyedPart, if_true] at he
+          exact Or.inl (List.mem_filter.mp he).2
+      | false => exact Or.inr ⟨rfl, fun hp0 => hk (hp0 ▸ hp)⟩
+  · intro hkd e _ hkey
+    subst hkd
+    rw [List.any_eq_false]
+    intro p _
+    simp [dHit_keyless hkey]
 
 theorem filterSpec_append (c : Cfg) (a b : List Cand) (pats : List Str) :
     filterSpec c (a ++ b) pats = filterSpec c a pats ++ filterSpec c b pats := by
@@ -613,42 +728,80 @@ theorem stageMapGo_nil (c : Cfg) (pats : List Str) : stageMapGo c [] pats = [] :
   | nil => rfl
   | cons p ps ih => simp [stageMapGo, nmFlat, ih]
 
-/-- the whole query: direct stage then namemap stage -/
-theorem pipeline_spec (c : Cfg) (keyed : Bool) (groups : List (List Cand)) (others : List Cand)
+/-- an exact match that respects case is also one that ignores it -/
+theorem matchesCfg_second_imp {c : Cfg} {p v : Str} (h : MatchesCfg c.second p v) :
+    MatchesCfg c.direct p v := by
+  rw [matchesCfg_second] at h
+  unfold MatchesCfg
+  have hcase : c.direct.isCase = c.isCase := rfl
+  have hre : c.direct.isRe = c.isRe := rfl
+  rw [hcase, hre]
+  by_cases hA : Absolute c.isCase c.isRe p ∧ c.direct.ci = true
+  · exact Or.inl ⟨hA, by rw [(matches_abs hA.1 v).mp h]⟩
+  · exact Or.inr ⟨hA, h⟩
+
+/-- the whole query, as the code behaves: the children of the visited parents are compared the way the
+    direct stage compares (ignoring case only through the index), the elements reached otherwise are
+    compared case-sensitively -/
+theorem pipeline_split (c : Cfg) (keyed : Bool) (groups : List (List Cand)) (others : List Cand)
     (pats : List Str) (h : HypPipeline c keyed groups others pats) :
     pipeline c keyed groups others pats ~
-      filterSpec c (groups.flatten ++ freshOnes groups.flatten others) pats := by
-  obtain ⟨hd, ho⟩ := h
-  have h1 := stageDirect_spec c keyed groups pats hd
+      filterSpec c.direct (keyedPart keyed (freshOnes [] groups.flatten)) pats ++
+      filterSpec c.second
+        (freshOnes (keyedPart keyed (freshOnes [] groups.flatten)) others) pats := by
+  have h1 := stageDirect_spec c keyed groups pats h
   unfold pipeline
   simp only [stageDirect_found, List.nil_append]
-  rw [filterSpec_append]
   refine Perm.append h1 ?_
-  by_cases hic : (c.indexed = true ∧ c.ci = true)
-  · have := ho hic
-    subst this
-    simp only [stageMap, freshOnes, buildMap, filterSpec, List.foldl_nil, List.filter_nil]
-    exact Perm.of_eq (stageMapGo_nil c pats)
-  · refine (stageMap_perm c _ others pats hic).trans (Perm.of_eq ?_)
-    -- the elements of the groups that the direct stage did not return do not match
-    let s : Cand → Bool := fun e => decide (∃ p ∈ pats, MatchesCfg c p e.val)
-    let Y := (stageDirect c keyed pats groups []).1
-    let X := groups.flatten.filter (fun e => !s e)
-    have hX : ∀ x ∈ X, s x = false := by
-      intro x hx; simpa using (List.mem_filter.mp hx).2
-    have hmem : ∀ e, e ∈ Y ++ X ↔ e ∈ groups.flatten := by
-      intro e
-      simp only [List.mem_append]
-      rw [h1.mem_iff]
-      simp only [filterSpec, List.mem_filter, X]
-      constructor
-      · rintro (⟨h, _⟩ | ⟨h, _⟩) <;> exact h
-      · intro h
-        by_cases hs : s e = true
-        · exact Or.inl ⟨h, hs⟩
-        · exact Or.inr ⟨h, by simpa using hs⟩
-    show (freshOnes Y others).filter s = (freshOnes groups.flatten others).filter s
-    rw [freshOnes_filter_ext s others Y X hX, freshOnes_congr others _ _ hmem]
+  refine (stageMap_perm c _ others pats).trans (Perm.of_eq ?_)
+  let G := keyedPart keyed (freshOnes [] groups.flatten)
+  let s : Cand → Bool := fun e => decide (∃ p ∈ pats, MatchesCfg c.second p e.val)
+  let sd : Cand → Bool := fun e => decide (∃ p ∈ pats, MatchesCfg c.direct p e.val)
+  let Y := (stageDirect c keyed pats groups []).1
+  let X := G.filter (fun e => !sd e)
+  have hX : ∀ x ∈ X, s x = false := by
+    intro x hx
+    have hsd : sd x = false := by simpa using (List.mem_filter.mp hx).2
+    cases hs : s x with
+    | false => rfl
+    | true =>
+        exfalso
+        have : sd x = true := by
+          simp only [s, sd, decide_eq_true_eq] at hs ⊢
+          obtain ⟨p, hp, hm⟩ := hs
+          exact ⟨p, hp, matchesCfg_second_imp hm⟩
+        rw [hsd] at this; cases this
+  have hmem : ∀ e, e ∈ Y ++ X ↔ e ∈ G := by
+    intro e
+    simp only [List.mem_append]
+    rw [h1.mem_iff]
+    simp only [filterSpec, List.mem_filter, X]
+    constructor
+    · rintro (⟨h, _⟩ | ⟨h, _⟩) <;> exact h
+    · intro h
+      by_cases hs : sd e = true
+      · exact Or.inl ⟨h, hs⟩
+      · exact Or.inr ⟨h, by simpa using hs⟩
+  show (freshOnes Y others).filter s = (freshOnes G others).filter s
+  rw [freshOnes_filter_ext s others Y X hX, freshOnes_congr others _ _ hmem]
+
+/-- where the code is consistent (`CiConsistent`) this is the property's statement -/
+theorem pipeline_spec (c : Cfg) (keyed : Bool) (groups : List (List Cand)) (others : List Cand)
+    (pats : List Str) (h : HypPipeline c keyed groups others pats) (hc : CiConsistent c others) :
+    pipeline c keyed groups others pats ~
+      filterSpec c (keyedPart keyed (freshOnes [] groups.flatten) ++
+        freshOnes (keyedPart keyed (freshOnes [] groups.flatten)) others) pats := by
+  refine (pipeline_split c keyed groups others pats h).trans (Perm.of_eq ?_)
+  rw [filterSpec_append]
+  by_cases hci : c.ci = true
+  · obtain ⟨hi, ho⟩ := hc hci
+    subst ho
+    have hd : c.direct = c := by cases c; simp [Cfg.direct] at *; simp [hi, hci]
+    rw [hd]
+    simp [freshOnes, filterSpec]
+  · have hci' : c.ci = false := by simpa using hci
+    have hd : c.direct = c := by cases c; simp [Cfg.direct] at *; simp [hci']
+    rw [hd, second_of_noci hci']
 
 
 /-! ## hierarchical stage -/
@@ -715,10 +868,9 @@ theorem stageHGo_perm (c : Cfg) (m : NameMap) (hm : MapOk m) (hn : (nmFlat m).No
       exact (Bool.and_or_distrib_left _ _ _).symm
 
 /-- hierarchical stage: the elements yielded before the name search, then the named ones that match -/
-theorem stageH_perm (c : Cfg) (bypass named : List Cand) (pats : List Str)
-    (hci : ¬ (c.indexed = true ∧ c.ci = true)) :
+theorem stageH_perm (c : Cfg) (bypass named : List Cand) (pats : List Str) :
     stageH c bypass named pats ~
-      dedup bypass ++ filterSpec c ((freshOnes [] named).filter (fun e => !(dedup bypass).contains e)) pats := by
+      dedup bypass ++ filterSpec c.second ((freshOnes [] named).filter (fun e => !(dedup bypass).contains e)) pats := by
   unfold stageH
   refine Perm.append_left _ ?_
   have hflat := buildMap_flat (freshOnes [] named)
@@ -729,8 +881,8 @@ theorem stageH_perm (c : Cfg) (bypass named : List Cand) (pats : List Str)
   rw [List.filter_filter]
   apply List.filter_congr
   intro e he
-  have hspec := any_eq_spec (c := c) (hit := fun p e => valHit c p e.val) (pats := pats) (e := e)
-    (fun p _ => valHit_iff hci)
+  have hspec := any_eq_spec (c := c.second) (hit := fun p e => valHit c p e.val) (pats := pats) (e := e)
+    (fun p _ => valHit_iff)
   rw [hspec]
   by_cases hb : e ∈ dedup bypass
   · simp [hb, he, List.mem_filter]
